@@ -10,6 +10,10 @@ NOPANIC_NAMES = {
     'iter', 'as_bytes', 'next', 'into_iter', 'len', 'is_empty', 'as_ref', 'deref', 'as_str', 'clone', 'into',
     'from', 'branch', 'from_residual', 'from_output', 'map', 'unwrap_or_default', 'collect', 'to_vec', 'map_err',
     'default', 'try_into', 'try_from', 'as_deref', 'drop', 'ok', 'err', 'from_iter', 'unwrap_or',
+    'then_some', 'is_some', 'is_none', 'copied', 'cloned', 'min', 'max', 'eq', 'ne', 'cmp', 'get', 'take',
+    'wrapping_add', 'wrapping_sub', 'wrapping_shl', 'wrapping_shr', 'wrapping_neg', 'saturating_add', 'saturating_sub',
+    'checked_add', 'checked_sub', 'checked_shl', 'checked_shr', 'checked_neg', 'leading_zeros', 'trailing_zeros',
+    'is_empty', 'first', 'last', 'as_mut', 'get_mut', 'unwrap_or_else', 'and_then', 'filter', 'replace',
 }
 PANICKY_NAMES = {'unwrap', 'expect', 'index', 'index_mut', 'panic', 'panic_fmt', 'unreachable', 'assert_failed',
                  'expect_err', 'unwrap_err', 'split_at', 'copy_from_slice', 'swap', 'remove', 'insert', 'drain',
